@@ -9,7 +9,7 @@ def build(tier):
     lens = [1, 15, 16, 17, 33]
     if tier == "quick":
         rs = [(RS2M, 4, 3, 3), (RS2M, 4, 6, 6), (RS2M, 4, 1, 14), (RS2M, 4, 14, 1), (RS2M, 8, 3, 3), (RS2M, 8, 5, 4), (RS28, 8, 3, 3), (RS28, 8, 5, 4), (RS28, 8, 1, 2)]
-        ld = [(2, 3, 3, 1), (3, 3, 3, 1), (5, 4, 3, 1), (4, 4, 4, 2), (6, 5, 5, 12345)]
+        ld = [(2, 3, 3, 1), (3, 3, 3, 1), (5, 4, 3, 1), (4, 4, 4, 2), (6, 5, 5, 12345), (1, 5, 4, 1), (2, 5, 4, 3), (2, 4, 4, 1), (3, 6, 4, 5)]
     else:
         rs = [(RS2M, 4, k, r) for k in (1, 2, 3, 4, 5, 6) for r in (1, 2, 3, 6)] + [(RS2M, 4, 1, 14), (RS2M, 4, 2, 13), (RS2M, 4, 14, 1), (RS2M, 4, 7, 8)] + \
              [(c, 8, k, r) for c in (RS2M, RS28) for k in (1, 2, 3, 4, 5) for r in (1, 2, 4)] + [(RS2M, 8, 6, 6), (RS28, 8, 6, 6)]
